@@ -689,6 +689,94 @@ def q_plugin_send_appointment(o, tier):
             'functions': ['watchtower_plugin::net::http::send_appointment']}
 
 
+def q_retrier_run(o, tier):
+    """C05/C13/C14 on the retry path (`Retrier::run`): every way a re-sent appointment can be answered is book-kept in the
+    order that never loses it: accepted => receipt stored *before* the pending record is removed; rejected by the tower =>
+    stored as invalid *before* the pending record is removed; connection error / subscription error => the pending
+    record is kept and the run ends with an error; re-registration is stored only after the receipt verified."""
+    funcs, idx, t_mir, err = load_mir('watchtower-plugin', 'lib')
+    if funcs is None:
+        return {'verdict': 'inconclusive', 'reason': 'MIR dump failed'}
+    name = [n for n in funcs if re.match(r'^retrier::<impl at .*?>::run::\{closure#0\}$', n)]
+    if len(name) != 1:
+        return {'verdict': 'inconclusive', 'reason': 'Retrier::run not found'}
+    f = funcs[name[0]]
+    poll = [b for b in f.blocks.values() if b.term['kind'] == 'call' and re.search(r'http::add_appointment\(\)\} as (?:std::future::)?Future>::poll', b.term['callee'])]
+    if len(poll) != 1:
+        return {'verdict': 'inconclusive', 'reason': 'anchor not found (poll=%d)' % len(poll)}
+    stop = r'IntoIter<Locator> as Iterator>::next'
+    rows = enum_paths(f, poll[0].term['next'], stop)
+    if rows is None:
+        return {'verdict': 'inconclusive', 'reason': 'path explosion'}
+    rows = [r for r in rows if ('stmt', 'pending') not in r]
+
+    def calls(r):
+        return [e[1] for e in r if e[0] == 'call']
+
+    def before(r, a, b):
+        c = calls(r)
+        return a in c and b in c and c.index(a) < c.index(b)
+    REC, INV, RM = 'WTClient::add_appointment_receipt', 'WTClient::add_invalid_appointment', 'WTClient::remove_pending_appointment'
+    part = o.get('part')
+    failed, queries, solver_s = [], 0, 0.0
+    if not rows or not any(REC in calls(r) for r in rows) or not any(INV in calls(r) for r in rows):
+        return {'verdict': 'inconclusive', 'reason': 'vacuous: %d paths' % len(rows)}
+    if part == 'bookkeeping':
+        # a path that removes the pending record must have stored the receipt or the invalid copy first, exactly one of them
+        bad = lambda r: RM in calls(r) and not ((before(r, REC, RM) and INV not in calls(r)) or (before(r, INV, RM) and REC not in calls(r)))
+        v, i, dt, out = _exists(rows, bad, 'rm')
+        queries += 1
+        solver_s += dt
+        if v == 'inconclusive':
+            return {'verdict': 'inconclusive', 'reason': out[:200]}
+        if v == 'sat':
+            failed.append({'description': 'a pending appointment can be removed without its receipt / invalid copy having been stored first',
+                           'function': 'Retrier::run', 'schedule': [list(e) for e in rows[i]][-14:]})
+        # a path that stores a receipt or an invalid copy also removes the pending record (pending -> accepted / invalid, exactly one)
+        bad2 = lambda r: (REC in calls(r) or INV in calls(r)) and RM not in calls(r)
+        v, i, dt, out = _exists(rows, bad2, 'keep')
+        queries += 1
+        solver_s += dt
+        if v == 'sat':
+            failed.append({'description': 'an appointment can end up both pending and accepted/invalid for the same tower',
+                           'function': 'Retrier::run', 'schedule': [list(e) for e in rows[i]][-14:]})
+    elif part == 'errors_keep_pending':
+        # connection errors and subscription errors end the run and never touch the pending record
+        is_conn = lambda r: any(e[0] == 'branch' and e[1] == 'RequestError::is_connection' and e[2] != '0' for e in r)
+        is_sub = lambda r: 'WTClient::set_tower_status' in calls(r)
+        bad = lambda r: (is_conn(r) or is_sub(r)) and (RM in calls(r) or r[-1][0] != 'return' or ('mk', 'Err') not in r)
+        if not any(is_conn(r) for r in rows) or not any(is_sub(r) for r in rows):
+            return {'verdict': 'inconclusive', 'reason': 'vacuous: error paths not found'}
+        v, i, dt, out = _exists(rows, bad, 'err')
+        queries += 1
+        solver_s += dt
+        if v == 'inconclusive':
+            return {'verdict': 'inconclusive', 'reason': out[:200]}
+        if v == 'sat':
+            failed.append({'description': 'a connection or subscription error on the retry path drops the pending record or does not end the run with an error',
+                           'function': 'Retrier::run', 'schedule': [list(e) for e in rows[i]][-14:]})
+    elif part == 'reregister_verify':
+        rows2 = enum_paths(f, 'bb0', r'WTClient::add_update_tower$')
+        if rows2 is None:
+            return {'verdict': 'inconclusive', 'reason': 'path explosion'}
+        rows2 = [r for r in rows2 if r[-1][0] == 'stop']
+        if not rows2:
+            return {'verdict': 'inconclusive', 'reason': 'vacuous: add_update_tower not reachable'}
+        ok = lambda r: any(e[0] == 'branch' and e[1] == 'RegistrationReceipt::verify' and e[2] != '0' for e in r)
+        v, i, dt, out = _exists(rows2, lambda r: not ok(r), 'rereg')
+        queries += 1
+        solver_s += dt
+        if v == 'inconclusive':
+            return {'verdict': 'inconclusive', 'reason': out[:200]}
+        if v == 'sat':
+            failed.append({'description': 'the retrier can store a renewed registration without its signature having been verified against the tower id',
+                           'function': 'Retrier::run', 'schedule': [list(e) for e in rows2[i]][-12:]})
+        rows = rows2
+    return {'verdict': 'fails' if failed else 'holds', 'failed': failed, 'queries': queries, 'solver_s': solver_s,
+            'witness': {'paths': len(rows), 'sample': [list(e) for e in rows[0] if e[0] in ('call', 'branch')][-10:]},
+            'functions': ['watchtower_plugin::retrier::Retrier::run']}
+
+
 QUERIES = {
     'lock_order': q_lock_order,
     'api_guard': q_api_guard,
@@ -698,6 +786,7 @@ QUERIES = {
     'plugin_must_record': q_plugin_must_record,
     'plugin_register_verify': q_plugin_register_verify,
     'plugin_send_appointment': q_plugin_send_appointment,
+    'retrier_run': q_retrier_run,
 }
 
 
